@@ -18,7 +18,7 @@ CHECKS = {
         category="model_checking",
         design="DESIGN.md section 4, C15",
         technique="explicit-state model checking of the real SlidingDeque: BFS closure over abstract shapes + exhaustive depth-bounded DFS of all op sequences, VecDeque reference model",
-        text="Every operation sequence over a 14-op alphabet up to depth 7 (quick) / 8 (thorough) is executed on the real SlidingDeque (Vec, SmallVec<[u32;2]> and an instrumented Vec backing, from empty and From<container> starts, with and without debug assertions) and compared step by step with a VecDeque, both by explorers that copy the deque before every op (exactly-fitting capacity: every push meets a full container) and, to depth 5 / 6, by re-executing each history on one object (amortised capacities); a 16-op alphabet adds clone_from into a deque with history (7 fresh items, with and without a consumed prefix in the source), and a zero-sized family runs all sequences to depth 4 / 5 on SlidingDeque<Vec<()>> of usize::MAX, usize::MAX - 1 and isize::MAX + 1 items (cursor arithmetic at the top of the usize range) against a counter model; in addition a breadth-first closure over the abstract state (physical length, consumed prefix) with <= 8 live elements reaches a fix-point, which by data independence covers unbounded histories within that size. The space bound (consumed prefix <= half the backing length) is observed directly through the instrumented backing.",
+        text="Every operation sequence over a 14-op alphabet up to depth 7 (quick) / 8 (thorough) is executed on the real SlidingDeque (Vec, SmallVec<[u32;2]> and an instrumented Vec backing, from empty and From<container> starts, with and without debug assertions) and compared step by step with a VecDeque, both by explorers that copy the deque before every op (exactly-fitting capacity: every push meets a full container) and, to depth 5 / 6, by re-executing each history on one object (amortised capacities); a 16-op alphabet adds clone_from into a deque with history (7 fresh items, with and without a consumed prefix in the source), and a zero-sized family runs all sequences to depth 4 / 5 on SlidingDeque<Vec<()>> of usize::MAX, usize::MAX - 1 and isize::MAX + 1 items (cursor arithmetic at the top of the usize range) against a counter model; in addition a breadth-first closure over the abstract state (physical length, consumed prefix) with <= 24 live elements (containers on both sides of the 64-byte mark) reaches a fix-point, which by data independence covers unbounded histories within that size. The space bound (consumed prefix <= half the backing length) is observed directly through the instrumented backing.",
         note="Assumes the deque's control flow does not depend on element values (no Ord/Eq bound); logical lengths > 8 are not enumerated; reference model is std VecDeque.",
     ),
     "C16": dict(
@@ -26,7 +26,7 @@ CHECKS = {
         category="model_checking",
         design="DESIGN.md section 4, C16",
         technique="explicit-state model checking of the real SortedDeque: BFS closure over (physical length, consumed prefix, tombstone flags) + exhaustive depth-bounded DFS, BTreeMap reference model",
-        text="Every sequence of push / push-erased / pop_first / pop_last / clear / remove-by-rank / remove-absent up to depth 7 (quick) / 8 (thorough) is executed on the real SortedDeque for both item conventions and three backings; after every op iteration order, first/last/is_empty and find() of every key ever pushed, its absent neighbour and one key above are compared with a BTreeMap, and out-of-order pushes must panic. A closure over tombstone-flag shapes with <= 7 physical items reaches a fix-point. Six non-initial start histories (tombstones then clear, two interior tombstones, emptied by pops, ...) are each followed by all op sequences to depth 6 / 7, and all histories to depth 5 / 6 are also re-executed on one object without copies; an extended alphabet performs the rejected pushes (key equal to / below the last item) on the object under test, catches the panic and carries on: the deque must be unchanged.",
+        text="Every sequence of push / push-erased / pop_first / pop_last / clear / remove-by-rank / remove-absent up to depth 7 (quick) / 8 (thorough) is executed on the real SortedDeque for both item conventions and three backings; after every op iteration order, first/last/is_empty and find() of every key ever pushed, its absent neighbour and one key above are compared with a BTreeMap, and out-of-order pushes must panic. A closure over tombstone-flag shapes with <= 7 physical items reaches a fix-point. Six non-initial start histories (tombstones then clear, two interior tombstones, emptied by pops, ...) and two SmallVec-backed ones that have spilled to the heap are each followed by all op sequences to depth 6 / 7 (5 / 6 for SmallVec), and all histories to depth 5 / 6 are also re-executed on one object without copies; an extended alphabet performs the rejected pushes (key equal to / below the last item) on the object under test, catches the panic and carries on: the deque must be unchanged.",
         note="Item types whose Ord changes under erasure relative to other keys (DESIGN observation O3) are outside the harness; > 7 physical items not enumerated.",
     ),
 }
@@ -53,15 +53,15 @@ CHECKS["C14"] = dict(
     category="exploration",
     design="DESIGN.md section 4, C14",
     technique="bounded-exhaustive enumeration of (local time, base time, voucher) triples in dense blocks around every edge and wrap-around boundary on the real VouchedTime, window rule in i128 as oracle",
-    text="For ~50 landmark base times (0, the window constants, calendar limits, i64/u64-nanosecond overflow points, 2^32, 2^63, the top of the u64 range) every millisecond of [base-60000, base+3100] and of [epoch, epoch+3000] is tried as local time; every one of the 62 892 base times at the top of the u64 range is combined with every local time within 3 s of the epoch (the only pairs that can wrap into the window); 24 special local times (calendar limits, epoch-1, overflow points) are combined with every base in their window; genuine, off-by-one, foreign-parameter and bit-flipped vouchers are tried at the edge differences. new/check/check_or_die/get_local_time must agree with the rule and never panic; now() is driven with 13 provider offsets x the 5 voucher kinds (it must apply the same rule as new(), voucher check included).",
-    note="Local times at millisecond granularity (sub-millisecond parts are truncated toward zero by the code); the full 2^64 x 2^64 space is covered by piecewise linearity, not enumeration.",
+    text="For ~50 landmark base times (0, the window constants, calendar limits, i64/u64-nanosecond overflow points, 2^32, 2^63, the top of the u64 range) every millisecond of [base-60000, base+3100] and of [epoch, epoch+3000] is tried as local time; every one of the 62 892 base times at the top of the u64 range is combined with every local time within 3 s of the epoch (the only pairs that can wrap into the window); 24 special local times (calendar limits, epoch-1, overflow points) are combined with every base in their window; genuine, off-by-one, foreign-parameter and bit-flipped vouchers are tried at the edge differences. new/check/check_or_die/get_local_time must agree with the rule and never panic; Sub-millisecond local times (offsets of 1 ns .. 999 999 ns around every edge, around the epoch and below it) are checked for exactness of get_local_time, agreement of new / check and, wherever the millisecond-tick reading and the real-valued reading of the window agree, for the verdict. now() is driven with 13 provider offsets x the 5 voucher kinds (it must apply the same rule as new(), voucher check included).",
+    note="The main blocks use whole-millisecond local times; sub-millisecond parts are covered by a separate family (the code works on the millisecond tick at or below the local time; for local - base strictly between +2990 and +2991 ms that reading accepts where a real-valued reading would reject: no verdict is asserted there, see DESIGN 8.3 O6). The full 2^64 x 2^64 space is covered by piecewise linearity, not enumeration.",
 )
 CHECKS["C17"] = dict(
     engine="readn_mc",
     category="fault_enumeration",
     design="DESIGN.md section 4, C17",
     technique="exhaustive enumeration of reader fault scripts (short reads, EINTR, EOF, hard errors) up to a length bound x counts x attempt limits x arena states x entry points on the real read_n, 15-line specification as oracle",
-    text="All reader scripts over {deliver all, deliver 1, deliver 2, Interrupted, EOF, Other error, WouldBlock error, UnexpectedEof error} up to length 6 (quick) / 7 (thorough), then EOF forever, x count in {0,1,2,3,5} (and, for counts beyond one 64008-byte HCOBS chunk, {64008, 64009, 64010, 70000, 128016, 128017} x scripts over {all, 40000, 64008, 1, Interrupted, EOF, errors} up to length 3 / 4) x max_attempts in {1,2,3,5,MAX} x five arena states (no cache, fresh chunk, remaining == count, count-1, 0) are run through ByteArena::read_n, Encoder/Decoder::read_n, encode_read and decode_read. Number and sizes of reader calls, returned bytes or error kind, hand-back of the unread tail, liveness of the returned slice, absence of leaks and the codec output after finish are judged against the statement on the trace that actually happened: at most max_attempts calls, each asking for at least 1 and at most the bytes still missing, no call after end of file / a non-interrupt error / the count was reached, no stop before one of those or the attempt budget, result = bytes delivered or the last error.",
+    text="All reader scripts over {deliver all, deliver 1, deliver 2, Interrupted, EOF, Other error, WouldBlock error, UnexpectedEof error} up to length 6 (quick) / 7 (thorough), then EOF forever, x count in {0,1,2,3,5} (and, for counts beyond one 64008-byte HCOBS chunk, {64008, 64009, 64010, 70000, 128016, 128017} x scripts over {all, 40000, 64008, 1, Interrupted, EOF, errors} up to length 3 / 4; and counts 1 MiB - 1, 1 MiB, 1 MiB + 1 on an arena whose current chunk is already at its largest size class) x max_attempts in {1,2,3,5,MAX} x five arena states (no cache, fresh chunk, remaining == count, count-1, 0) are run through ByteArena::read_n, Encoder/Decoder::read_n, encode_read and decode_read. Number and sizes of reader calls, returned bytes or error kind, hand-back of the unread tail, liveness of the returned slice, absence of leaks and the codec output after finish are judged against the statement on the trace that actually happened: at most max_attempts calls, each asking for at least 1 and at most the bytes still missing, no call after end of file / a non-interrupt error / the count was reached, no stop before one of those or the attempt budget, result = bytes delivered or the last error.",
     note="Readers that violate Read's contract are out of scope; codec output is compared with the reference encoder in mc_core::refcodec.",
 )
 
@@ -71,7 +71,7 @@ CHECKS["C03"] = dict(
     category="model_checking",
     design="DESIGN.md section 4, C03",
     technique="stateless model checking: exhaustive DFS over all operation histories (28-op alphabet, depth-bounded, fresh + non-initial starts) of the real OwningIovec against a reference pipe model",
-    text="All histories over a 28-op producer/consumer alphabet (size-adaptive, copied, borrowed, anchored pushes around the 64/256-byte thresholds, extend, placeholder register/backfill, clear, take, arena flush/swap/exhaustion, consume/advance/pop/Read with partial amounts) to depth 5 (quick) / 6 (thorough), a 14-op reduced alphabet (including an AnchoredSlice taken from the read side, held across clear()/take() and pushed back later) to depth 6 / 8, three construction paths and five non-initial seed states. " + IOVEC_COMMON,
+    text="All histories over a 28-op producer/consumer alphabet (size-adaptive, copied, borrowed, anchored pushes around the 64/256-byte thresholds, extend, placeholder register/backfill, clear, take, arena flush/swap/exhaustion, consume/advance/pop/Read with partial amounts) to depth 5 (quick) / 6 (thorough), a 14-op reduced alphabet (including an AnchoredSlice taken from the read side, held across clear()/take() and pushed back later) to depth 6 / 8, three construction paths, five non-initial seed states, non-initial states with 6-12 placeholders in flight (eight filled out of order), and a 12-op chunk-end alphabet F to depth 6 / 7 (copies that leave 1 or 4 bytes in the current arena chunk, then copies and placeholders of 1 and 70 bytes, rejected wrong-size backfills). " + IOVEC_COMMON,
     note="Histories longer than the depth bound from states no seed reaches, payload sizes other than the threshold set and arena chunks beyond the first sizes of the growth sequence are not covered.",
 )
 CHECKS["C04"] = dict(
@@ -79,7 +79,7 @@ CHECKS["C04"] = dict(
     category="model_checking",
     design="DESIGN.md section 4, C04",
     technique="stateless model checking: exhaustive DFS over all register/backfill/push/consume histories (17-op alphabet, depth 7-8) of the real OwningIovec against a reference model with marked holes",
-    text="All histories over a 17-op backpatch alphabet (a clone taken while placeholders are pending, whose views must hide them too; non-initial states with 5-7 placeholders in flight; copies sized to leave exactly 4 bytes in the current arena chunk so that placeholders straddle a chunk end, placeholders of size 0/1/2 with up to 5 in flight, backfill of the 1st/2nd/3rd/last pending in any order, merging and non-merging pushes, cache flush, slice and byte consumption) to depth 7 (quick) / 8 (thorough), plus seeds. The visible length may never reach the earliest hole, iovs/flatten/stable_consumer succeed exactly when no hole is pending, and after all backfills everything is consumable with the backfilled values. " + IOVEC_COMMON,
+    text="All histories over a 17-op backpatch alphabet (a clone taken while placeholders are pending, whose views must hide them too; non-initial states with 5-7 placeholders in flight; copies sized to leave exactly 4 bytes in the current arena chunk so that placeholders straddle a chunk end, placeholders of size 0/1/2 with up to 5 in flight, backfill of the 1st/2nd/3rd/last pending in any order, merging and non-merging pushes, cache flush, slice and byte consumption) to depth 7 (quick) / 8 (thorough), plus seeds, plus the chunk-end alphabet F (70-byte placeholders straddling a chunk end; backfill_or_panic with a value of the wrong size, which must panic and leave the placeholder pending) to depth 6 / 7. The visible length may never reach the earliest hole, iovs/flatten/stable_consumer succeed exactly when no hole is pending, and after all backfills everything is consumable with the backfilled values. " + IOVEC_COMMON,
     note="More than 5 placeholders in flight and placeholder sizes above 2 are not enumerated.",
 )
 CHECKS["C05"] = dict(
@@ -148,7 +148,7 @@ CHECKS["C06"] = dict(
     engine="stream_mc",
     category="fault_enumeration",
     design="DESIGN.md section 4, C06",
-    technique="exhaustive enumeration of byte streams and crash/corruption histories x block sizes x reader deviation schedules (short reads, EINTR bursts; deviation-bounded) x judges on the real StreamReader, reference record list as oracle",
+    technique="exhaustive enumeration of byte streams and crash/corruption histories x block sizes x reader deviation schedules (short reads, EINTR bursts; deviation-bounded) x judges x client behaviours (peeking, consuming all / half of each returned record) on the real StreamReader, reference record list as oracle",
     text=STREAM_FAMILIES + " Judges: (inf, none), (1, none), (0, none), a custom judge that skips the first record, and (inf, L) for every offset limit L <= len+1. The sequence of (decoded bytes, byte range) until the first None must equal the reference (left-to-right FE FD split, reference HCOBS decoder, size and offset rules), three more calls must return None, last_sentinel_offset must be exact, everything shown to the judge or returned must lie in live arena memory, nothing may panic or leak.",
     note="Hard I/O errors (DESIGN observation O1) and custom judges that skip on an empty range are outside the enumerated space; streams longer than the bounds only through family (ii).",
 )
@@ -170,7 +170,7 @@ CHECKS["C13"] = dict(
     category="model_checking",
     design="DESIGN.md section 4, C13",
     technique="stateless model checking with loom 0.7.2 (DPOR over thread interleavings + C11 reads-from choices, pre-emption bounded) of the real atomic_base_time.rs compiled against loom-backed stand-ins (hook H3); plus exhaustive enumeration of all sequential operation histories (depth-bounded, incl. panicking updates that poison the writer lock) of the real AtomicBaseTime against a reference model",
-    text="Six harnesses over the real source (writer lapping both slots against a reader taking two snapshots; update vs try_update vs reader; three updates vs two readers; an older update that must be ignored; recency through a release/acquire flag; two blocking writers vs a reader) are explored exhaustively by loom at pre-emption bound 2 (quick) and 2, 3 and unbounded (thorough): every schedule at atomic-operation granularity and, for every atomic load, every store the C11 release/acquire/relaxed rules allow it to read. In every execution each snapshot must be a whole pair passed to an accepted update or the epoch pair (the crate's own voucher assertion also fires on a torn pair), at least as recent as every update that happens-before it, non-decreasing per thread; older updates are ignored; the final value is the maximum accepted; snapshot takes no lock. Sequential clause (real std types): all histories up to length 6 (quick) / 7 (thorough) over 14 ops (update / try_update of four base times, update / try_update with a voucher that does not match, which panics inside the writer lock and poisons it, snapshot, sequence) against a three-line reference model: the newest accepted pair is what snapshot returns, older updates are ignored, a poisoned lock costs only the next try_update its turn.",
+    text="Six harnesses over the real source (writer lapping both slots against a reader taking two snapshots; update vs try_update vs reader; three updates vs two readers; an older update that must be ignored; recency through a release/acquire flag; two blocking writers vs a reader) are explored exhaustively by loom at pre-emption bound 2 (quick) and 2, 3 and unbounded (thorough): every schedule at atomic-operation granularity and, for every atomic load, every store the C11 release/acquire/relaxed rules allow it to read. In every execution each snapshot must be a whole pair passed to an accepted update or the epoch pair (the crate's own voucher assertion also fires on a torn pair), at least as recent as every update that happens-before it, non-decreasing per thread; older updates are ignored; the final value is the maximum accepted; snapshot takes no lock. Sequential clause (real std types): all histories up to length 6 (quick) / 7 (thorough) over 18 ops (update / try_update of six base times, two of them more than 2^63 ms above the others, update / try_update with a voucher that does not match, which panics inside the writer lock and poisons it, snapshot, sequence) against a three-line reference model: the newest accepted pair is what snapshot returns, older updates are ignored, a poisoned lock costs only the next try_update its turn.",
     note="loom's model of C11 (no load buffering / out-of-thin-air), mutex poisoning not modelled by loom (covered by the sequential clause on std's mutex), <= 3 threads besides main and <= 3 operations per thread; runs exploring fewer than 8 executions are refused as vacuous.",
 )
 CHECKS["C18"] = dict(
@@ -182,13 +182,13 @@ CHECKS["C18"] = dict(
     note="Step points are the stand-in operations of hook H3; lock hand-off is decided by the controller (virtual parking), never by an OS race, so every scenario is deterministic. More than two suspended writers are not enumerated.",
 )
 
-CHECKS["C18"]["text"] += " Clause (ii): nfs_voucher::get_base_time_unlocked and observe_file_time are run alone while a thread is suspended after each of the first 13 steps of add_trusted_path's update of the module-wide base time (holding its writer lock), in a fresh process and after a completed registration, with and without a second add_trusted_path completing while the first is suspended (104 scenarios, each in its own child process because the module state is process-global): no lock operation, no waiting, at most 4 loads."
+CHECKS["C18"]["text"] += " Clause (ii): nfs_voucher::get_base_time_unlocked and observe_file_time are run alone while a thread is suspended after each of the first 13 steps of add_trusted_path's update of the module-wide base time (holding its writer lock), in a fresh process and after a completed registration, with and without a second add_trusted_path completing while the first is suspended (104 scenarios, each in its own child process because the module state is process-global): no lock operation, no waiting, at most 4 loads. Second shape: a refreshing get_base_time suspended after each of its first 14 steps (inside its blocking update it holds the writer lock and the read guard on the table of trusted paths), an add_trusted_path queued behind that guard, then get_base_time_unlocked with a now one hour ahead must return within 2 s without lock operations (a reader-writer lock admits no new reader once a writer is queued)."
 CHECKS["C19"] = dict(
     engine="vtime_mc",
     category="model_checking",
     design="DESIGN.md section 4, C19",
     technique="exhaustive enumeration of call histories (16-op alphabet, depth 3-4) of the real nfs_voucher module, each history in a fresh child process against real files on two real devices, invariant checked after every call",
-    text="All sequences to depth 3 (quick) / 4 (thorough) over {add_trusted_path, observe a stale / a newer trusted file / an untrusted file, maybe_observe (trusted / untrusted), scan_base_time, get_base_time with now = real now / base+100 ms / base+10 s, get_base_time_unlocked, sleep 120 ms (lets the 100 ms throttle expire), touch the stale file, replace the trusted path by a symlink onto the other device, register the other device too, a registration on the other device that is refused at its validating touch (a world-writable file the caller does not own, called with nobody's effective uid) and must leave nothing behind; a registration through the retargeted symlink trusts the device of the file that is opened, not the link's}; the trusted role alternates between tmpfs (/dev/shm) and the root file system. After every call the child reads the base time and stats its files: the base never decreases, changes only to the change-time of a file on a trusted device (or of the path being registered by that very call), untrusted observations report nothing, every pair returned passes VouchedTime::check.",
+    text="All sequences to depth 3 (quick) / 4 (thorough) over {add_trusted_path, observe a stale / a newer trusted file / an untrusted file, maybe_observe (trusted / untrusted), scan_base_time, get_base_time with now = real now / base+100 ms / base+10 s, get_base_time_unlocked, sleep 120 ms (lets the 100 ms throttle expire), touch the stale file, replace the trusted path by a symlink onto the other device, register the other device too, a registration on the other device that is refused at its validating touch (a world-writable file the caller does not own, called with nobody's effective uid) and must leave nothing behind; a registration through the retargeted symlink trusts the device of the file that is opened, not the link's}; the trusted role alternates between tmpfs (/dev/shm) and the root file system; after a registration, all sequences over the 8 observing ops one level deeper (answers that depend on what was observed before). After every call the child reads the base time and stats its files: the base never decreases, changes only to the change-time of a file on a trusted device (or of the path being registered by that very call), untrusted observations report nothing, every pair returned passes VouchedTime::check.",
     note="Needs two writable devices (exits 2, no verdict, otherwise). Change-times come from the kernel's coarse clock; the harness waits 12 ms after each call so later touches are strictly later. The oracle does not depend on which throttle branch was taken. Concurrency inside nfs_voucher is out of scope.",
 )
 
